@@ -21,17 +21,32 @@
 enum { M_OFF, M_TRACE, M_SCHED };
 static int mode = M_OFF;
 
-static uintptr_t L_ring, L_ring_end, L_wh, L_rh, L_buf, L_buf_end;
+// [L_buf, L_buf_alloc) is the allocated buffer; [L_buf, L_buf_end) is the window in which an access counts as a
+// buffer access (the ring's logical size plus slack, so that an unmasked or unallocated index is seen too)
+static uintptr_t L_ring, L_ring_end, L_wh, L_rh, L_buf, L_buf_end, L_buf_alloc;
+static int       oob_flag;
+#define OOB_SLACK 64
 
-void vt_layout(void* ring, size_t ring_size, void* wh, void* rh, void* buf, size_t buf_size)
+void vt_layout(void* ring, size_t ring_size, void* wh, void* rh, void* buf, size_t buf_alloc, size_t buf_logical)
 {
-  L_ring     = (uintptr_t)ring;
-  L_ring_end = L_ring + ring_size;
-  L_wh       = (uintptr_t)wh;
-  L_rh       = (uintptr_t)rh;
-  L_buf      = (uintptr_t)buf;
-  L_buf_end  = L_buf + buf_size;
+  L_ring      = (uintptr_t)ring;
+  L_ring_end  = L_ring + ring_size;
+  L_wh        = (uintptr_t)wh;
+  L_rh        = (uintptr_t)rh;
+  L_buf       = (uintptr_t)buf;
+  L_buf_alloc = L_buf + buf_alloc;
+  L_buf_end   = L_buf + (buf_alloc > buf_logical ? buf_alloc : buf_logical) + OOB_SLACK;
+  oob_flag    = 0;
 }
+
+int vt_oob(void)
+{
+  int f    = oob_flag;
+  oob_flag = 0;
+  return f;
+}
+
+static inline int allocated(uintptr_t a) { return a >= L_buf && a < L_buf_alloc; }
 
 static const char* mo_name(int mo)
 {
@@ -46,7 +61,12 @@ static int head_of(uintptr_t a, size_t n)
   if (a < L_rh + 4 && a + n > L_rh) return 'R';
   return 0;
 }
-static int in_buf(uintptr_t a, size_t n) { return n && a < L_buf_end && a + n > L_buf; }
+static int in_buf(uintptr_t a, size_t n)
+{
+  if (!(n && a < L_buf_end && a + n > L_buf)) return 0;
+  if (a < L_buf || a + n > L_buf_alloc) oob_flag = 1;
+  return 1;
+}
 
 // ============================================================== TRACE mode
 typedef struct {
@@ -84,8 +104,9 @@ static void resolve_lazy(void)
     if (e->kind == 's') {
       e->val = *(volatile uint32_t*)(e->head == 'W' ? L_wh : L_rh);
     } else if (e->kind == 'w') {
-      e->bytes = (unsigned char*)malloc((size_t)e->len + 1);
-      memcpy(e->bytes, (void*)(L_buf + e->off), (size_t)e->len);
+      e->bytes = (unsigned char*)calloc((size_t)e->len + 1, 1);
+      for (long k = 0; k < e->len; ++k)
+        if (allocated(L_buf + (uintptr_t)(e->off + k))) e->bytes[k] = *(unsigned char*)(L_buf + (uintptr_t)(e->off + k));
     }
   }
 }
@@ -98,9 +119,13 @@ static void buf_ev(char kind, uintptr_t a, size_t n, const void* data, int lazy)
   e->off = (long)(lo - L_buf);
   e->len = (long)(hi - lo);
   e->lazy = lazy;
-  if (!lazy) {
-    e->bytes = (unsigned char*)malloc((size_t)e->len + 1);
-    memcpy(e->bytes, (const char*)data + (lo - a), (size_t)e->len);
+  if (!lazy) { // data = the other (user) side of a memcpy, or the buffer itself for a plain read
+    e->bytes = (unsigned char*)calloc((size_t)e->len + 1, 1);
+    for (long k = 0; k < e->len; ++k) {
+      uintptr_t src = (uintptr_t)data + (lo - a) + (uintptr_t)k;
+      if (src >= L_buf && src < L_buf_end && !allocated(src)) continue; // unallocated buffer byte: not readable
+      e->bytes[k] = *(const unsigned char*)src;
+    }
   }
 }
 
@@ -161,7 +186,7 @@ void vt_trace_end(FILE* out)
 
 // ============================================================== SCHED mode
 #define MAXH 4096
-#define MAXV 64
+#define MAXV 16
 typedef struct { uint32_t val; int rel; } HEnt;
 typedef struct { unsigned char val; int wep; } Ver;
 typedef struct { Ver v[MAXV]; int n; int rep; } Cell;
@@ -218,7 +243,7 @@ static void flush_pending(int t)
         uintptr_t b = a + k;
         if (b < L_buf || b >= L_buf_end) continue;
         Cell* c = &cells[b - L_buf];
-        if (c->n < MAXV) { c->v[c->n].val = *(unsigned char*)b; c->v[c->n].wep = nh[0]; c->n++; }
+        if (c->n < MAXV && allocated(b)) { c->v[c->n].val = *(unsigned char*)b; c->v[c->n].wep = nh[0]; c->n++; }
       }
     }
   }
@@ -287,6 +312,7 @@ static unsigned char sched_buf_read(long cell)
   int t = cur;
   point();
   Cell* c = &cells[cell];
+  if (!allocated(L_buf + (uintptr_t)cell)) fail_race("OOB: read outside the allocated buffer, offset", cell);
   if (t == 0) { // the writer reading back its own buffer: newest
     return c->n ? c->v[c->n - 1].val : 0;
   }
@@ -302,13 +328,14 @@ static void sched_buf_write(long cell, unsigned char v)
   int t = cur;
   point();
   Cell* c = &cells[cell];
+  if (!allocated(L_buf + (uintptr_t)cell)) fail_race("OOB: write outside the allocated buffer, offset", cell);
   if (t != 0) fail_race("reader writes the buffer, cell", cell);
   if (c->rep > sync_[0]) fail_race("write of a cell whose last read is not ordered before it, cell", cell);
   if (c->n == MAXV) { memmove(c->v, c->v + 1, sizeof(Ver) * (MAXV - 1)); c->n--; }
   c->v[c->n].val = v;
   c->v[c->n].wep = nh[0];
   c->n++;
-  *(unsigned char*)(L_buf + cell) = v;
+  if (allocated(L_buf + (uintptr_t)cell)) *(unsigned char*)(L_buf + cell) = v;
 }
 
 static VtFn fns[2];
@@ -383,10 +410,13 @@ static void plain(uintptr_t a, size_t n, int is_write)
     for (size_t k = 0; k < n; ++k) {
       uintptr_t b = a + k;
       if (b < L_buf || b >= L_buf_end) continue;
-      if (!is_write) *(unsigned char*)b = sched_buf_read((long)(b - L_buf));
-      else {
+      if (!is_write) {
+        unsigned char v = sched_buf_read((long)(b - L_buf));
+        if (allocated(b)) *(unsigned char*)b = v;
+      } else {
         point();
         Cell* c = &cells[b - L_buf];
+        if (!allocated(b)) fail_race("OOB: write outside the allocated buffer, offset", (long)(b - L_buf));
         if (cur != 0) fail_race("reader writes the buffer, cell", (long)(b - L_buf));
         if (c->rep > sync_[0]) fail_race("write of a cell whose last read is not ordered before it, cell", (long)(b - L_buf));
       }
@@ -489,9 +519,14 @@ void* verif_memcpy(void* dst, const void* src, size_t n)
       if (head_of(s, n)) trace_plain(s, n, 0);
       if (head_of(d, n)) trace_plain(d, n, 1);
     }
-    memcpy(dst, src, n);
-    if (n && s < L_buf_end && s + n > L_buf) buf_ev('r', s, n, src, 0);
-    if (n && d < L_buf_end && d + n > L_buf) buf_ev('w', d, n, dst, 0);
+    int sb = in_buf(s, n), db = in_buf(d, n);
+    for (size_t k = 0; k < n; ++k) { // bytes outside the allocation are not copied (reported through vt_oob)
+      uintptr_t sa = s + k, da = d + k;
+      if ((sa >= L_buf && sa < L_buf_end && !allocated(sa)) || (da >= L_buf && da < L_buf_end && !allocated(da))) continue;
+      *(unsigned char*)da = *(const unsigned char*)sa;
+    }
+    if (sb) buf_ev('r', s, n, dst, 0); // values as delivered to the caller
+    if (db) buf_ev('w', d, n, src, 0); // values as supplied by the caller
     return dst;
   }
   if (mode == M_SCHED && cur >= 0 && (in_buf(d, n) || in_buf(s, n))) {
@@ -502,6 +537,14 @@ void* verif_memcpy(void* dst, const void* src, size_t n)
       else b = *(const unsigned char*)sa;
       if (da >= L_buf && da < L_buf_end) sched_buf_write((long)(da - L_buf), b);
       else *(unsigned char*)da = b;
+    }
+    return dst;
+  }
+  if (L_buf && (in_buf(d, n) || in_buf(s, n))) { // no mode active (setup, drain): still never touch unallocated bytes
+    for (size_t k = 0; k < n; ++k) {
+      uintptr_t sa = s + k, da = d + k;
+      if ((sa >= L_buf && sa < L_buf_end && !allocated(sa)) || (da >= L_buf && da < L_buf_end && !allocated(da))) continue;
+      *(unsigned char*)da = *(const unsigned char*)sa;
     }
     return dst;
   }
